@@ -551,9 +551,6 @@ func genOpts(rt *rapid.T, w *World, maxUpgrades []int, plain, conc bool) Opts {
 	o.DevDeps = !chance(rt, "nodev", 1, 4)
 	o.MaxDepth = draw(rt, "maxdepth", -1, -1, -1, 1, 2, 3)
 	o.MinSeverity = draw(rt, "minseverity", 0.0, 0.0, 0.0, 0.0, 5.0)
-	if w.Sys == "maven" {
-		o.MavenManagement = chance(rt, "mavenmanagement", 1, 4)
-	}
 	return o
 }
 
